@@ -76,6 +76,14 @@ def run(chk):
     chk.model_check('MC_BigInt.tla', 'MC_BigInt_prod.cfg', label='BigInt(B=2^15) vs native Int')
     chk.model_check('MC_BigInt.tla', 'MC_BigInt_b4.cfg' if tier == 'quick' else 'MC_BigInt_b2.cfg', label='BigInt small base vs native Int')
     chk.model_check('MC_Arith.tla', 'MC_Arith_C07_quick.cfg', label='growth rules exact / never overflow (small world)')
+    # design-level model of the carrier switch (MW = 8, MF = 5): the repaired decision rule is exact and raises nothing for every
+    # pair of formats up to MW+1 bits; the rule of the pinned tree must be rejected (informational, see DESIGN 3.5)
+    chk.model_check('MC_Machine.tla', 'MC_Machine_fixed.cfg', label='Machine: repaired int64/Python-integer decision rule (MW=8, MF=5)')
+    from .. import tlc as _tlc
+    rn = _tlc.run('MC_Machine.tla', 'MC_Machine_pinned.cfg')
+    chk.subruns.append(dict(rn.summary(), label='Machine: decision rule of the pinned tree (must be rejected)', kind='model-check (must fail)'))
+    if not rn.violated:
+        raise core.Machinery('the machine-word model did not reject the pinned decision rule')
     n = 260 if tier == 'quick' else 6000
     obs = []
     for part in core.parallel_map(_exec, [(chk.seed * 1000 + i, n // core.NPROC + 1) for i in range(core.NPROC)]):
